@@ -29,7 +29,8 @@ def parseSvcReq : String → Option SvcReq
   | "resume" => some .resume | "restart" => some .restart | "disable" => some .disable | "enable" => some .enable
   | "fix" => some .fix | "compromise" => some .compromise | _ => none
 def parseAppReq : String → Option AppReq
-  | "scan" => some .scan | "close" => some .close | "fix" => some .fix | "compromise" => some .compromise | _ => none
+  | "scan" => some .scan | "close" => some .close | "execute" => some .execute | "fix" => some .fix
+  | "compromise" => some .compromise | _ => none
 
 def parseSvcEv : List String → Option SvcEv
   | ["start"] => some (.start true) | ["stop"] => some .stop | ["pause"] => some .pause | ["resume"] => some .resume
@@ -50,13 +51,15 @@ def parseAppEv : List String → Option AppEv
 def parseList (s : String) : Option (List Nat) :=
   if s = "-" then some [] else (s.splitOn ",").mapM String.toNat?
 
-/-- `flags` = three digits: guarded, ctorRuns, baseRoutes -/
+/-- `flags` = four digits: guarded, ctorRuns, baseRoutes, genericExecute -/
 def parseCls (name port proto flags : String) : Option Cls :=
   match port.toNat?, parseProto proto, flags.toList with
-  | some p, some pr, [g, r, b] =>
-    match parseBool (String.singleton g), parseBool (String.singleton r), parseBool (String.singleton b) with
-    | some g, some r, some b => some { name := name, port := p, proto := pr, guarded := g, ctorRuns := r, baseRoutes := b }
-    | _, _, _ => none
+  | some p, some pr, [g, r, b, x] =>
+    match parseBool (String.singleton g), parseBool (String.singleton r), parseBool (String.singleton b),
+          parseBool (String.singleton x) with
+    | some g, some r, some b, some x =>
+      some { name := name, port := p, proto := pr, guarded := g, ctorRuns := r, baseRoutes := b, genericExecute := x }
+    | _, _, _, _ => none
   | _, _, _ => none
 
 def showOptInt : Option Int → String
@@ -71,6 +74,7 @@ def showOut : Out → String
   | .status s => showStatus s
   | .raised => "raised"
   | .ignored => "ignored"
+  | .unmodelled => "unmodelled"
   | .recv l => "recv " ++ ",".intercalate (l.map fun (u, h) => s!"{u}:{showBool h}")
 
 def showSoft (w : Soft) : String :=
